@@ -29,6 +29,12 @@ Theorem C13_fresh_number :
   /\ forall q, In q (live s) -> ms_next_id s - rq_id q < period g0 -> rq_seq q <> n.
 Proof. exact fresh_sequence_number. Qed.
 
+(* the ESME only ever ADVANCES its two number generators (read off esme.py by the translator: outside __init__ every use of
+   self.sequence_generator / self._ref_seq_generator is the receiver of next_sequence()): nothing rewinds or replaces them, in
+   particular not at the end of a connect cycle - so the history of C13_fresh_number runs across reconnects *)
+Theorem C13_generators_only_advanced : generator_foreign_uses = 0 /\ 2 <= generator_advance_sites.
+Proof. split; [reflexivity|discriminate]. Qed.
+
 (* (b) for every history, no request is ever attributed twice *)
 Theorem C13_at_most_once :
   forall g es, NoDup (attributed_ids (snd (run (init_state g) es))).
